@@ -13,7 +13,7 @@ var concPrograms = []string{
 	"[3,1,2].kh(2) + [5,6].sum()", "x = [1,2,3]; x.push(4); x.len()", "{'a':1,'b':2}.keys().len()", "2d6 + d20",
 	"(1 + ", "func f(a){a*2}; f(21)", "&c = d6; c + c", "`a{1+1}b`", "[1,2,3,4,5].shuffle()", "toStr(1.5) + repr('x')",
 	"if 1 { 2 } else { 3 }", "1 +* 2", "[4,5,6].len() * [7].len()", "y = {'k': [1,2]}; y.k.push(3); y.k.sum()",
-	"", " ", "#", "\n(", "1 +\n", "'abc",
+	"", " ", "#", "\n(", "1 +\n", "'abc", "d + 0", "3d + d", "func r(){ d }; r() + d", "600a10 + 1", "5a6k4 + d6",
 	"&cv = 2d4; cv.compute() + 1", "[9,8,7].kl(2)", "'abc'[1] + 'x'", "3 +", "i = 0; while i < 5 { i = i + 1 }; i", "[1,2,3].rand() > 0",
 }
 
@@ -27,7 +27,15 @@ func concSeed(base int64, i int) string {
 
 func concOne(i int, base int64, iters int, seeded bool) []string {
 	cfg := ds.RollConfig{OpCountLimit: 30000, ParseErrorLanguage: i % 3, EnableDiceWoD: i%2 == 0, EnableDiceCoC: i%4 == 1}
+	// the same default-sides TEXT under different switches: what it means is each VM's own business
+	cfg.DefaultDiceSideExpr = "6|1"
+	cfg.DisableBitwiseOp = i%2 == 1
+	cfg.DiceMaxMode = i%3 == 0
 	seed := "-"
+	if !seeded && i%4 == 0 {
+		// a small budget: pools and loops are cut short part-way; whatever a cut-short roll held must have been let go
+		cfg.OpCountLimit = 400
+	}
 	if seeded {
 		seed = concSeed(base, i)
 	}
